@@ -182,6 +182,12 @@ impl Tree {
 		self.core.inner.opts.clock.now()
 	}
 
+	/// Whether the active-memtable lock could be taken for writing right now (i.e. no
+	/// reader or writer holds it - including the calling thread further up its stack).
+	pub fn verif_active_memtable_unlocked(&self) -> bool {
+		self.core.inner.active_memtable.try_write().is_ok()
+	}
+
 	/// The visibility horizon.
 	pub fn verif_visible_seq(&self) -> u64 {
 		self.core.seq_num()
